@@ -43,15 +43,70 @@ func nearEdge(s h.Snap) bool {
 	return s.Form == model.Finite && (s.Exp > model.MaxExp-60 || s.Exp < model.MinExp+60)
 }
 
+// c08UnaryOracle states the exact outcome of Set/Neg/Abs/SetPrec/SetMantExp steps.
+func c08UnaryOracle(s sm.Step, zBefore, x, zAfter h.Snap) *h.Fail {
+	var want model.Val
+	switch s.Op {
+	case "set", "neg", "abs":
+		p := zBefore.Prec
+		if p == 0 {
+			p = x.Prec
+		}
+		if s.A[0] == s.Z || p == 0 {
+			return nil // z.Set(z) does not round; precision 0 only with non-finite values
+		}
+		want = model.SetVal(x.Val(), uint64(p), model.Mode(zBefore.Mode)).V
+		if s.Op == "neg" {
+			want = want.Negate()
+		} else if s.Op == "abs" {
+			want = want.AbsVal()
+		}
+	case "setprec":
+		if s.P == 0 {
+			want = zBefore.Val()
+			if want.Form == model.Finite {
+				want = model.MkZero(want.Neg)
+			}
+		} else {
+			want = model.SetVal(zBefore.Val(), uint64(s.P), model.Mode(zBefore.Mode)).V
+		}
+	case "setmantexp":
+		v := x.Val()
+		if v.Form == model.Finite {
+			v.Exp += s.Exp
+			if x.Prec == 0 {
+				return nil
+			}
+			v, _ = model.Round(model.X{Val: v}, uint64(x.Prec), model.Mode(x.Mode))
+		}
+		want = v
+	default:
+		return nil
+	}
+	if !zAfter.Val().Equal(want) {
+		return h.Failf("unary-value", "receiver %v, operand %v: got %v, exact rounding gives %v", zBefore, x, zAfter.Val(), want)
+	}
+	return nil
+}
+
 func checkC08(c ProgCase, o *h.Obs) *h.Fail {
 	m := sm.NewMachine(c.Prog.Init)
 	var rounding, aliasing, edge, decode bool
 	for i, s := range c.Prog.Steps {
 		before := h.Read(m.V[s.Z])
+		var opBefore h.Snap
+		if len(s.A) > 0 {
+			opBefore = h.Read(m.V[s.A[0]])
+		}
 		out := m.Do(s)
 		o.Label("op:" + s.Op)
 		if out.Panic != nil {
 			return h.Failf("panic", "%s panicked with %T: %v", stepString(i, s), out.Panic, out.Panic)
+		}
+		// results that leave the range are +-0 or +-Inf, never a wrapped finite value: for the
+		// single-operand roundings the exact outcome is cheap to state (reference rounding + range rule)
+		if f := c08UnaryOracle(s, before, opBefore, h.Read(m.V[s.Z])); f != nil {
+			return h.Failf(f.Class, "%s: %s", stepString(i, s), f.Msg)
 		}
 		if out.NaN {
 			o.Label("ErrNaN-step")
@@ -104,7 +159,7 @@ func checkC08(c ProgCase, o *h.Obs) *h.Fail {
 	return nil
 }
 
-const ruleC08 = "rapid state machine over 5 Decimal variables (initially zero values, clean/dirty zeros and infinities, finite values): each step is drawn against the current state from set/copy/neg/abs/add/sub/mul/quo/fma/sqrt, SetPrec/SetMode/SetInf, SetMantExp/MantExp (offsets driving exponents to both range ends and back), SetInt/SetInt64/SetUint64/SetRat/SetFloat64/SetFloat, Parse (bases 0,2,8,10,16)/SetString/UnmarshalText/Scan on valid and invalid literals, GobEncode->GobDecode with valid and mutated payloads, SetBitsExp with fresh word slices (leading/low zero words) or the receiver's own BitsExp slice; receivers and operands drawn independently so every aliasing occurs. Sum-type steps are only scheduled between operands whose digit gap is bounded, quotients/roots at bounded precision (cost bounds). Invariant after every step on every variable: finite => non-empty mantissa, top word in [10^18,10^19), all words < 10^19, 1 <= MinPrec <= Prec, exponent in range; zero/inf => no mantissa, MantExp 0, MinPrec 0; valid mode/accuracy codes; pairwise Cmp == exact order of the values read back (equal digits/exponent <=> Cmp == 0); no panic other than ErrNaN. Non-trivial = a run with at least one rounding step AND one aliased step AND one range-edge or decode step; distinct by program encoding."
+const ruleC08 = "rapid state machine over 5 Decimal variables (initially zero values, clean/dirty zeros and infinities, finite values): each step is drawn against the current state from set/copy/neg/abs/add/sub/mul/quo/fma/sqrt, SetPrec/SetMode/SetInf, SetMantExp/MantExp (offsets driving exponents to both range ends and back), SetInt/SetInt64/SetUint64/SetRat/SetFloat64/SetFloat, Parse (bases 0,2,8,10,16)/SetString/UnmarshalText/Scan on valid and invalid literals, GobEncode->GobDecode with valid and mutated payloads, SetBitsExp with fresh word slices (leading/low zero words) or the receiver's own BitsExp slice; receivers and operands drawn independently so every aliasing occurs. Sum-type steps are only scheduled between operands whose digit gap is bounded, quotients/roots at bounded precision (cost bounds). Invariant after every step on every variable: finite => non-empty mantissa, top word in [10^18,10^19), all words < 10^19, 1 <= MinPrec <= Prec, exponent in range; zero/inf => no mantissa, MantExp 0, MinPrec 0; valid mode/accuracy codes; pairwise Cmp == exact order of the values read back (equal digits/exponent <=> Cmp == 0); no panic other than ErrNaN; after Set/Neg/Abs/SetPrec/SetMantExp steps the receiver holds exactly the reference rounding of the operand (range rule included: a carry past MaxExp must give an infinity, not a wrapped finite value). Non-trivial = a run with at least one rounding step AND one aliased step AND one range-edge or decode step; distinct by program encoding."
 
 var propC08 = &h.Prop[ProgCase]{ID: "C08", Rule: ruleC08, Gen: func(t *rapid.T) ProgCase { return genProg(t, sm.DefaultOpts()) }, Check: checkC08, Matchers: map[string]func(ProgCase) bool{}}
 
